@@ -277,6 +277,7 @@ class LookupDB:
 
         ans = []
         is_hamming = custom_distance == 'hamming'
+        is_custom = custom_distance not in (None, 'hamming')
         if is_hamming:
             custom_distance = _hamming_replacement
         elif custom_distance is None:
@@ -298,7 +299,7 @@ class LookupDB:
                                ans.append((x_index, y_index, edit_distance))
                            else:
                                dist = custom_distance(seq, possible_edit)
-                               if dist <= max_custom_distance:
+                               if not is_custom or dist <= max_custom_distance:
                                    ans.append((x_index, y_index, dist))
         return _make_output(ans, output_type, self.seqs, seqs2)
 
